@@ -174,6 +174,14 @@ def parseNatList (s : String) : List Nat :=
   if s = "none" then [] else (s.splitOn ",").filterMap String.toNat?
 
 def handle (model : String) : List String → String
+  | ["script", "slow-close", _wrote, _armed, closed, results, cls] =>
+    -- C03: a call registered while the failure transition is in progress (done closed, the
+    -- connection's own Close still running) and written successfully must be completed once
+    if closed ≠ "closed=true" then s!"DIFF harness: slow-close scenario did not reach the Close gate ({closed})"
+    else if results = "results=0" then "SPEC key=stranded-slow-close (call registered during a slow connection Close was never completed)"
+    else if results ≠ "results=1" then s!"SPEC key=double-completion-slow-close {results} {cls}"
+    else s!"OK tags=script,slow-close,{cls}"
+  | "script" :: name :: rest => s!"DIFF harness: script {name} {" ".intercalate rest}"
   | "run" :: q :: status :: cancelled :: foreign :: steps =>
     match q.toNat? with
     | none => "BAD queue size"
